@@ -465,3 +465,77 @@ for _part in ('cells', 'fill', 'drop'):
         functions=['isna_array'] + (['Frame.dropna'] if _part == 'drop' else []),
         bounds='3x3 frame: a column of symbolic kind (float64 with NaN / object with None / datetime64[D] with NaT), a column of symbolic kind (object with NaN / datetime64[D] with NaT / int64) and an int column; the missing pattern of each symbolic over 4 patterns; every block layout; ' + {'cells': 'isna / notna / count / Series.isna / count / dropna', 'fill': 'fillna_forward / fillna_backward (Frame axis 0, Series, limit) and fillna(v)', 'drop': 'Frame.dropna (any / all, both axes)'}[_part],
         route='missing-value operations on NaN, None and NaT alike: per cell exactly as specified, for Frames in every layout and for their column Series', timeout=600))
+
+
+# ---------------------------------------------------------------- fillna with a CONTAINER: aligned by label, whatever the label order / block order
+
+def body_fillna_series_unsorted(env, perm, m0, m1, m2, m3, cover):
+    from vf import rt
+    perms = ((0, 1, 2, 3), (0, 1, 3, 2), (3, 2, 1, 0), (2, 0, 3, 1))
+    order = perms[_which(perm, 4)]
+    flags = [bool(m0), bool(m1), bool(m2), bool(m3)]
+    cover = _which(cover, 3)
+
+    def run():
+        sf = env.sf
+        names = ['a', 'b', 'c', 'd']
+        labels = [names[i] for i in order]                      # the filled Series' own (possibly unsorted) label order
+        vals = [(env.nan if flags[p] else 10 + p) for p in range(4)]
+        s = sf.Series(env.array(vals, 'float64'), index=labels)
+        # the filler covers all labels / the last three / c and d only, in ITS own (sorted or reversed) order
+        covered = (names, names[1:], names[2:])[cover]
+        forder = list(reversed(covered)) if cover == 1 else list(covered)
+        filler = sf.Series(env.array([200 + names.index(l) for l in forder], 'float64'), index=forder)
+        r = s.fillna(filler)
+        exp = []
+        for p, l in enumerate(labels):
+            if flags[p]:
+                exp.append(200 + names.index(l) if l in covered else M)
+            else:
+                exp.append(10 + p)
+        return [env.obs(r.values.tolist()), env.obs(r.index.values.tolist()), env.obs(s.values.tolist())], [exp, labels, [(M if flags[p] else 10 + p) for p in range(4)]]
+    return rt.untraced(run)
+
+
+_add(Cond('series_fillna_series_label_orders', [('perm', 'int'), ('m0', 'bool'), ('m1', 'bool'), ('m2', 'bool'), ('m3', 'bool'), ('cover', 'int')], body_fillna_series_unsorted,
+        ranges={'perm': (0, 3), 'cover': (0, 2)},
+        functions=['Series.fillna'],
+        bounds='float64 Series of 4 whose labels come in one of four orders (sorted / partly swapped / reversed / shuffled), every missing pattern; filler Series over all / three / two of the labels in its own order',
+        route='Series.fillna(Series): every missing cell takes the filler value of ITS OWN label (or stays missing when the filler lacks it) whatever the label order of either side', timeout=300))
+
+
+def body_fillna_frame_layouts(env, m0, m1, m2, m3, k0, shuffle):
+    from vf import rt
+    flags = [bool(m0), bool(m1), bool(m2), bool(m3)]
+    k0, shuffle = _which(k0, 3), bool(shuffle)
+
+    def run():
+        sf = env.sf
+        from static_frame.core.type_blocks import TypeBlocks
+        # columns: i (never missing: int / str / float-without-NaN, symbolic), then p q r (float, first-row cells possibly missing), row 1 of r too
+        first = (('int64', (7, 8)), ('<U1', ('x', 'y')), ('float64', (0.5, 1.5)))[k0]
+        cols = [list(first[1]), [(env.nan if flags[0] else 11.0), 21.0], [(env.nan if flags[1] else 12.0), 22.0], [(env.nan if flags[2] else 13.0), (env.nan if flags[3] else 23.0)]]
+        dts = [first[0], 'float64', 'float64', 'float64']
+        names = ['i', 'p', 'q', 'r']
+        ref = [[env.obs(cols[c][r]) for c in range(4)] for r in range(2)]
+        fill_cols = {'p': [100.0, 101.0], 'q': [200.0, 201.0], 'r': [300.0, 301.0]}
+        forder = ['r', 'p', 'q'] if shuffle else ['p', 'q', 'r']
+        filler = sf.Frame.from_items(((c, env.array(fill_cols[c], 'float64')) for c in forder), index=[11, 10] if shuffle else [10, 11])
+        frows = {11: 0, 10: 1} if shuffle else {10: 0, 11: 1}
+        exp = [[(fill_cols[names[c]][frows[10 + r]] if ref[r][c] == M else ref[r][c]) for c in range(4)] for r in range(2)]
+        exp = [[env.obs(v) for v in row] for row in exp]
+        got = []
+        kinds = [dts[0] + 'x', 'f', 'f', 'f'] if dts[0] != 'float64' else ['f'] * 4
+        for lay in _lays_for(kinds):
+            f = sf.Frame(TypeBlocks.from_blocks(layouts.build_blocks_typed(env, cols, dts, lay)), index=[10, 11], columns=names)
+            r = f.fillna(filler)
+            got.append([[env.obs(r.iloc[i, j]) for j in range(4)] for i in range(2)])
+        return got, [exp] * len(got)
+    return rt.untraced(run)
+
+
+_add(Cond('frame_fillna_frame_all_layouts', [('m0', 'bool'), ('m1', 'bool'), ('m2', 'bool'), ('m3', 'bool'), ('k0', 'int'), ('shuffle', 'bool')], body_fillna_frame_layouts,
+        ranges={'k0': (0, 2)},
+        functions=['Frame.fillna', 'TypeBlocks.fillna_by_values'],
+        bounds='2x4 frame: a never-missing first column of symbolic kind (int64 / str / float64) followed by three float columns with symbolic missing cells; filler Frame over the float columns with rows and columns in the same or another order (symbolic); every block layout',
+        route='Frame.fillna(Frame): every missing cell takes the filler cell of its own (row, column) labels, blocks without missing cells before blocks with them included', timeout=400))
